@@ -293,6 +293,30 @@ func implDec(entry, opts, rspec, accu, hx string) (out string) {
 }
 
 func implLine(line string) string {
+	if strings.HasPrefix(line, "hist ") {
+		calls := strings.Split(line[5:], "^")
+		outs := make([]string, 0, len(calls))
+		accu := ""
+		for _, c := range calls {
+			toks := strings.Split(c, " ")
+			if accu != "" && toks[0] == "dec" && len(toks) >= 5 {
+				toks[4] = accu
+				c = strings.Join(toks, " ")
+			}
+			out := implLine1(c)
+			if toks[0] == "dec" {
+				if o := strings.Split(out, " "); len(o) >= 3 {
+					accu = o[2]
+				}
+			}
+			outs = append(outs, out)
+		}
+		return strings.Join(outs, "^")
+	}
+	return implLine1(line)
+}
+
+func implLine1(line string) string {
 	f := strings.Split(line, " ")
 	switch f[0] {
 	case "dec":
